@@ -221,11 +221,36 @@ func ruleR19_7(w *World, r *Report) {
 			continue
 		}
 		for _, ci := range callsIn(fn) {
-			g, ok := ci.(*ssa.Go)
-			if !ok || len(g.Call.Args) == 0 || typeShort(g.Call.Args[0].Type()) != "*solver.Solver" {
+			var g ssa.Instruction
+			var recv ssa.Value
+			if gg, ok := ci.(*ssa.Go); ok && len(gg.Call.Args) > 0 && typeShort(gg.Call.Args[0].Type()) == "*solver.Solver" {
+				g, recv = gg, gg.Call.Args[0]
+			} else if c, ok := ci.(*ssa.Call); ok {
+				// the method value of a solver handed to a starter of package main (`startOptimal(s.Optimal)`) that runs
+				// it with `go`
+				h := c.Call.StaticCallee()
+				if h == nil || w.PkgName(h) != "main" {
+					continue
+				}
+				for ai, a := range c.Call.Args {
+					mc, isMC := a.(*ssa.MakeClosure)
+					if !isMC || len(mc.Bindings) != 1 || typeShort(mc.Bindings[0].Type()) != "*solver.Solver" || ai >= len(h.Params) {
+						continue
+					}
+					started := false
+					for _, hi := range callsIn(h) {
+						if hg, isGo := hi.(*ssa.Go); isGo && hg.Call.Value == ssa.Value(h.Params[ai]) {
+							started = true
+						}
+					}
+					if started {
+						g, recv = c, mc.Bindings[0]
+					}
+				}
+			}
+			if g == nil {
 				continue
 			}
-			recv := g.Call.Args[0]
 			// origins of the receiver: look through phis and single-assignment cells
 			var origins []ssa.Value
 			seen := map[ssa.Value]bool{}
